@@ -39,16 +39,16 @@ MANIFEST = {
             "imm_reg_arg_machine - for every 64-bit immediate and every accepted type the emitted stores / mov leave the immediate's bytes at the "
             "argument's location (the sign-extending mov qword shortcut only when it reproduces the value); reg_stack_arg_machine - every integer "
             "type pair and register value is extended as the parameter type requires on its way to a stack slot; reg_reg_arg_machine - likewise for "
-            "8/16-bit registers and wider integer register parameters (fix C06-17); open finding C06-K9: an int32 register for an int64 register "
-            "parameter is not sign-extended (witness theorem + host execution). Whole argument lists (Props/C06InvokeList.lean): pack_machine / "
+            "8/16-bit registers and wider integer register parameters and for int32 -> int64 (fixes C06-17, C06-20). AArch64: a64_imm_stack_machine - an "
+            "immediate stack argument is stored in exactly size_of(type) bytes of its slot (fix C06-21; Apple packs small stack arguments). Whole argument lists (Props/C06InvokeList.lean): pack_machine / "
             "invoke_int_args_machine - for any number of integer arguments (immediates and GP virtual registers of every integer type, register and "
             "stack positions, 32/64-bit targets) the instructions on_before_invoke emits, run on the machine from any state, leave EVERY argument's "
-            "location holding the value passed (immediate / register extended as required / register as it is in register positions for 32/64-bit "
-            "registers) and change nothing below the fresh registers and outside the arguments' own slots; hypotheses on the inputs only (distinct "
+            "location holding the value passed (immediate / register extended as required / register as it is in register positions when it is not "
+            "narrower or is an unsigned 32-bit register) and change nothing below the fresh registers and outside the arguments' own slots; hypotheses on the inputs only (distinct "
             "virtual registers per argument, disjoint slots). Vector / by-reference arguments: per-path theorems + temps_ok, not yet in the list theorem.",
     "note": "Model follows the code with fixes C06-1..16 (all in /repo). Trusted: Lean kernel; Spec/ABI.lean and Spec/Machine.lean as the meaning of the ABIs / of "
             "the mov family; the FuncFrame facts (dirty/preserved masks, SA register/offsets) are inputs taken from the real frame (C07); the "
-            "harness/driver diff. Open findings C06-K9 (x86 invoke: int32 register for an int64 register parameter not sign-extended; proposed fixes/C06-20), C06-K10 (AArch64 invoke: stack arguments stored in the register's width - on Apple arm64 past the call area into the caller's locals; proposed fixes/C06-21), C06-K11 (AArch64 invoke: narrower registers never extended). Not claimed: mmx on 32-bit, 64-bit integers under GCC regparm, call-site marshalling inside the "
+            "harness/driver diff. Open finding C06-K11 (AArch64 invoke: a narrower register is never extended for a wider integer parameter); K9 / K10 repaired by fixes C06-20 / C06-21. Not claimed: mmx on 32-bit, 64-bit integers under GCC regparm, call-site marshalling inside the "
             "register allocator (C05: the allocator's own moves are only judged by the machine monitor), theorems for the AArch64 invoke lowering beyond a64_imm_value / store8_first_and_overflow, vector / by-reference arguments in the list theorem, shuffle_correct for stack destinations / non-integer groups without the selection hypothesis, byte overlap of stack slots (movaps stores 16 bytes for a float).",
 }
 MODS = ["AsmjitVerif.Props.C06", "AsmjitVerif.Props.C06Invoke", "AsmjitVerif.Props.C06InvokeList", "AsmjitVerif.Props.C06InvokeA64"]
